@@ -113,14 +113,14 @@ From Sakura.Proofs Require Import LayoutP TermP LocalityP LogExecP.
 Theorem after_end_compile its0 p t lsA lnA hA accA lsB lnB hB accB :
   forallb litem_ok its0 = true -> forallb is_layout its0 = true ->
   lex_pre (print_items its0 ++ print_cprog p ++ zs "End" ++ t) = false -> lex_pre (print_items its0 ++ print_cprog p ++ zs "End") = false ->
-  (forall f, runs f (mkLex 96 [] init_vars rhythm_rows) (0 + items_lines its0) false ([TLineNo 0] ++ items_toks 0 its0) p (zs "End" ++ t) lsA lnA hA accA) ->
-  (forall f, runs f (mkLex 96 [] init_vars rhythm_rows) (0 + items_lines its0) false ([TLineNo 0] ++ items_toks 0 its0) p (zs "End") lsB lnB hB accB) ->
+  (forall f, runs f (mkLex 96 [] init_vars rhythm_rows false) (0 + items_lines its0) false ([TLineNo 0] ++ items_toks 0 its0) p (zs "End" ++ t) lsA lnA hA accA) ->
+  (forall f, runs f (mkLex 96 [] init_vars rhythm_rows false) (0 + items_lines its0) false ([TLineNo 0] ++ items_toks 0 its0) p (zs "End") lsB lnB hB accB) ->
   compile (print_items its0 ++ print_cprog p ++ zs "End") <> OutOfFuel ->
   compile (print_items its0 ++ print_cprog p ++ zs "End" ++ t) = compile (print_items its0 ++ print_cprog p ++ zs "End").
 Proof.
   intros H0 L0 N1 N2 RA RB NF.
   destruct (after_end_lex its0 p t _ 0 lsA lnA hA accA lsB lnB hB accB H0 L0 N1 N2 RA RB) as [E1 E2].
-  unfold compile in *. unfold run_source in *. rewrite E1. rewrite E2 in NF |- *. cbn [bind] in NF |- *.
+  unfold compile, compile_lang in *. unfold run_source, run_source_lang in *. rewrite E1. rewrite E2 in NF |- *. cbn [bind] in NF |- *.
   set (A := print_items its0 ++ print_cprog p ++ zs "End" ++ t). set (B := print_items its0 ++ print_cprog p ++ zs "End") in *.
   assert (HL : (S (length B) <= S (length A))%nat).
   { unfold A, B. rewrite !app_length. lia. }
@@ -133,9 +133,9 @@ Example end_compile_example :
   compile (zs "c d;End [ x { FUNCTION F(){ } TR(") = compile (zs "c d;End") /\
   exists bytes log, compile (zs "c d;End") = Ok (bytes, log).
 Proof.
-  assert (RA : exists lsA lnA hA accA, forall f, runs f (mkLex 96 [] init_vars rhythm_rows) (0 + items_lines []) false ([TLineNo 0] ++ items_toks 0 []) end_prog (zs "End" ++ end_tail) lsA lnA hA accA).
+  assert (RA : exists lsA lnA hA accA, forall f, runs f (mkLex 96 [] init_vars rhythm_rows false) (0 + items_lines []) false ([TLineNo 0] ++ items_toks 0 []) end_prog (zs "End" ++ end_tail) lsA lnA hA accA).
   { do 4 eexists. intros f. unfold end_prog. runs_tac. }
-  assert (RB : exists lsB lnB hB accB, forall f, runs f (mkLex 96 [] init_vars rhythm_rows) (0 + items_lines []) false ([TLineNo 0] ++ items_toks 0 []) end_prog (zs "End") lsB lnB hB accB).
+  assert (RB : exists lsB lnB hB accB, forall f, runs f (mkLex 96 [] init_vars rhythm_rows false) (0 + items_lines []) false ([TLineNo 0] ++ items_toks 0 []) end_prog (zs "End") lsB lnB hB accB).
   { do 4 eexists. intros f. unfold end_prog. runs_tac. }
   destruct RA as (lsA & lnA & hA & accA & RA). destruct RB as (lsB & lnB & hB & accB & RB).
   assert (V : exists bytes log, compile (zs "c d;End") = Ok (bytes, log)) by (vm_compute; do 2 eexists; reflexivity).
